@@ -91,6 +91,11 @@ def run(tier):
     for nb, nf in enumerate((1200, 1500) if tier == "quick" else (1200, 1500, 2200)):
         big = "".join("fn f%d(a: i32, b: i32) -> i32\n{\n\tvar x: i32 = a + b * %d;\n\tif x == %d\n\t{\n\t\tx = x - 1;\n\t}\n\treturn: x\n}\n" % (i, i, i) for i in range(nf))
         cases.append(("big%d" % nb, big, "big-module"))
+    firsts = ["fn double(x: i32) -> i32\n{\n\treturn: x + x\n}\n", "const K: i32 = 1;\n", "struct S\n{\n\tx: i32,\n}\n", "word16 W\n{\n\ta: u8,\n\tb: u8,\n}\n", "struct Opaque;\n", "import \"other.pn\";\n", "extern fn e(a: i32) -> i32;\n", "fn head(a: i32);\n"]
+    for nf_, fd_ in enumerate(firsts):
+        for pub_ in ("", "pub "):
+            for rest_ in ("", "fn main()\n{\n}\n", "pub const LAST: u8 = 2;\n"):
+                cases.append(("first%d%s%d" % (nf_, "p" if pub_ else "q", len(rest_)), pub_ + fd_ + rest_, "first-declaration"))
     for nd, terms in enumerate((8, 14, 30, 60)):
         ids = ["a", "b", "c", "d"]
         e1 = " + ".join(ids[i % 4] for i in range(terms)); e2 = " * ".join(ids[(i + 1) % 4] for i in range(terms)); e3 = " + ".join("%s * %s" % (ids[i % 4], ids[(i + 2) % 4]) for i in range(terms // 2))
